@@ -14,9 +14,13 @@ machine's execution (`Lemmas/CompileWp`, `CompileInvA*`, `CompileInvB*`, `Compil
 `CompileFinal*`):
 * `compile_cases_resolve`  — every case names a category of its own router   (no hypothesis)
 * `compile_dests_resolve`  — every destination is a node of the EMITTED flow   (no hypothesis)
+* `compile_closed_iff`     — `Closed (renderOut out) ↔` node identifiers pairwise different, for
+  sheets WITH `_nodeId`s (that do not look like invented identifiers: `PlainGivenIds`,
+  `needs_plain_given_ids`): a duplicated node identifier is the only way to a non-closed flow
 * `compile_closed`         — `Closed (renderOut out)`, the full C01 statement, under `NoGivenIds`
   (no `_nodeId` given in the sheet; `needs_no_given_ids` shows the hypothesis is needed: it is
-  the known finding F-C01-a of the real code).
+  the known finding F-C01-a of the real code)
+* `compile_ids_invented`   — under `NoGivenIds` every identifier of the document came from the counter.
 -/
 import Rpft.Flow
 import Rpft.Lemmas.Compile
@@ -215,6 +219,19 @@ def badEvents : List Compile.Event :=
   [ .row (mkRow "1" "send_message" [edgeFrom ""] (some "hello") [] "X"),
     .row (mkRow "2" "wait_for_response" [edgeFrom "1"] none [] "X") ]
 
+/-- legitimate use of `_nodeId`: two action rows merge into node `N1`, the router is `N2` -/
+def mergeEvents : List Compile.Event :=
+  [ .row (mkRow "1" "send_message" [edgeFrom ""] (some "hello") [] "N1"),
+    .row (mkRow "2" "send_message" [edgeFrom "1"] (some "again") [] "N1"),
+    .row (mkRow "3" "wait_for_response" [edgeFrom "2"] none [] "N2"),
+    .row (mkRow "4" "send_message" [edgeFrom "3" "yes"] (some "bye")) ]
+
+/-- a given `_nodeId` that looks like an identifier the model invents (`~0` is the uuid of the
+first row's action) -/
+def tildeEvents : List Compile.Event :=
+  [ .row (mkRow "1" "send_message" [edgeFrom ""] (some "hello")),
+    .row (mkRow "2" "send_message" [edgeFrom "1"] (some "again") [] "~0") ]
+
 def exTests : List Str := ["has_any_word".toList, "has_only_text".toList]
 
 /-- `some true` / `some false`: compiles, and the output is / is not closed; `none`: error -/
@@ -247,7 +264,7 @@ theorem compile_cases_resolve (noArgs testTypes : List Str) (evs : List Compile.
   obtain ⟨m, hm, rfl⟩ := hn
   rw [ho] at hm
   obtain ⟨i, hi⟩ := Compile.out_nodes_arena hm
-  have a := Compile.final_ainv False (fun hf => hf.elim) hr
+  have a := Compile.final_ainv Compile.Flags.none ⟨fun hf => hf.elim, fun hf => hf.elim⟩ hr
   exact Compile.rendered_cases_ok (a.ok i m hi).cases
 
 /-- non-vacuity: the example sheet (router, block, `go_to`, inserted block) compiles, and its cases name categories -/
@@ -295,64 +312,120 @@ def NoGivenIds (evs : List Compile.Event) : Prop := Compile.noIdsL evs = true
 instance (evs : List Compile.Event) : Decidable (NoGivenIds evs) := by
   unfold NoGivenIds; exact inferInstance
 
-/-- **C01 for the compiler model, for ALL event sequences** (`compile_closed`): when the sheet
-gives no node identifiers, every flow the compiler model emits is referentially closed —
-node identifiers are unique, every exit leads nowhere or to a node of the same flow, categories
-and exits correspond one to one, every case names a category of its own router, default and
-no-response categories exist, a router-less node has exactly one exit, and every identifier of
-the document is used for one object only.  Proof: three invariants of the machine's execution
-(arena closure, freshness of every stored identifier w.r.t. the counter, well-formed group tree),
-each preserved by every parser event, by induction over the (unbounded, nested) event sequence. -/
-theorem compile_closed (noArgs testTypes : List Str) (evs : List Compile.Event) (out : Compile.Out)
-    (hids : NoGivenIds evs) (h : Compile.compile noArgs testTypes evs = .ok out) :
-    Flow.Closed (Compile.renderOut out) := by
+/-- "Given identifiers do not look like invented ones": no `_nodeId` of any row (also inside
+inserted blocks) starts with `~`, the shape of the identifiers the MODEL invents (the real ones
+are random UUID-4; a given identifier colliding with one of them is the same accident).  The
+hypothesis of `compile_closed_iff`; needed, see `needs_plain_given_ids`. -/
+def PlainGivenIds (evs : List Compile.Event) : Prop := Compile.okIdsL evs = true
+
+instance (evs : List Compile.Event) : Decidable (PlainGivenIds evs) := by
+  unfold PlainGivenIds; exact inferInstance
+
+theorem NoGivenIds.plain {evs : List Compile.Event} (h : NoGivenIds evs) : PlainGivenIds evs :=
+  Compile.okIdsL_of_noIdsL evs h
+
+/-- **C01 for the compiler model, for ALL event sequences, sheets with `_nodeId`s included**
+(`compile_closed_iff`): whatever identifiers the sheet gives (node merging, exported sheets), the
+emitted flow is referentially closed EXACTLY WHEN its node identifiers are pairwise different.
+So a duplicated node identifier — which only a sheet-given `_nodeId` can cause, finding F-C01-a —
+is the ONLY way the compiler model can emit a flow that is not closed: destinations always lead
+into the flow, categories / exits / cases always correspond, and every invented identifier is
+used for one object only.  Proof: three invariants of the machine's execution (arena closure;
+freshness, w.r.t. the counter, of every stored identifier other than given node identifiers;
+well-formed group tree ⇒ the emission covers the arena exactly once), each preserved by every
+parser event, by induction over the (unbounded, nested) event sequence. -/
+theorem compile_closed_iff (noArgs testTypes : List Str) (evs : List Compile.Event) (out : Compile.Out)
+    (hplain : PlainGivenIds evs) (h : Compile.compile noArgs testTypes evs = .ok out) :
+    Flow.Closed (Compile.renderOut out) ↔ ((Compile.renderOut out).nodes.map (·.uuid)).Nodup := by
+  refine ⟨fun hc => hc.1, fun hU => ?_⟩
   obtain ⟨s, hr, hl, ho⟩ := Compile.compile_ok h
-  have a := Compile.final_ainv True (fun _ => hids) hr
+  have a := Compile.final_ainv ⟨True, False⟩ ⟨fun _ => hplain, fun hf => hf.elim⟩ hr
   have hI := a.ids trivial
   have hb := Compile.final_binv hr
   -- every identifier of the document is used once
   have hids3 : (Compile.renderOut out).ids.Nodup := by
     have e : (Compile.renderOut out).ids = out.nodes.flatMap Compile.NodeM.ids := by
       simp only [Compile.renderOut, Flow.Flow.ids, List.flatMap_map, Compile.renderNode_ids]
+    have hU' : (out.nodes.map (·.uid)).Nodup := by
+      simpa [Compile.renderOut, List.map_map, Function.comp_def, Compile.renderNode] using hU
     rw [e, ho]
-    exact Compile.ids_nodup_of_idsInv hI _ (Compile.emit_nodup hb hl)
-  refine ⟨?_, ?_, hids3⟩
-  · -- node identifiers: a sub-list of all identifiers
-    refine List.Sublist.nodup ?_ hids3
-    exact Compile.map_sublist_flatMap _ _ (fun x => ⟨_, rfl⟩) _
-  · intro n hn
-    have hn' := hn
-    simp only [Compile.renderOut, List.mem_map] at hn'
-    obtain ⟨m, hm, rfl⟩ := hn'
-    have hm' := hm
-    rw [ho] at hm'
-    obtain ⟨i, hi⟩ := Compile.out_nodes_arena hm'
-    have hnd : (Compile.renderNode m).ids.Nodup := by
-      rw [Compile.renderNode_ids]; exact hI.nodup i m hi
-    obtain ⟨sh1, sh2, sh3, sh4⟩ := rendered_node_shape m
-    refine ⟨?_, ?_, sh4⟩
-    · intro e he d hd
-      exact compile_dests_resolve noArgs testTypes evs out h _ hn e he d (by
-        cases hde : e.dest <;> simp [hde] at hd; rw [hd])
-    · intro r hr'
-      have hr : (Compile.renderNode m).router = some r := by
-        cases hrr : (Compile.renderNode m).router <;> simp [hrr] at hr'; rw [hr']
-      have hex : r.cats.map (·.exitUuid) = (Compile.renderNode m).exits.map (·.uuid) := sh1 r hr
-      -- exits and categories are sub-lists of the node's identifiers
-      have hE : ((Compile.renderNode m).exits.map (·.uuid)).Nodup := by
-        refine List.Sublist.nodup ?_ hnd
-        unfold Flow.Node.ids
-        exact ((List.sublist_append_right _ _).trans (List.sublist_append_left _ _)).cons _
-      have hC : (r.cats.map (·.uuid)).Nodup := by
-        refine List.Sublist.nodup ?_ hnd
-        unfold Flow.Node.ids
-        rw [hr]
-        exact ((List.sublist_append_left _ _).trans (List.sublist_append_right _ _)).cons _
-      refine ⟨⟨?_, hE, ?_, ?_⟩, hC, ?_, sh2 r hr, sh3 r hr⟩
-      · rw [hex]; exact hE
-      · intro c hc; rw [← hex]; exact List.mem_map_of_mem hc
-      · intro e he; rw [hex]; exact List.mem_map_of_mem he
-      · exact compile_cases_resolve noArgs testTypes evs out h _ hn r hr
+    rw [ho] at hU'
+    exact Compile.ids_nodup_of_idsInv hI _ (Compile.emit_nodup hb hl) hU'
+  refine ⟨hU, ?_, hids3⟩
+  intro n hn
+  have hn' := hn
+  simp only [Compile.renderOut, List.mem_map] at hn'
+  obtain ⟨m, hm, rfl⟩ := hn'
+  have hnd : (Compile.renderNode m).ids.Nodup :=
+    (List.pairwise_flatMap.mp hids3).1 _ hn
+  obtain ⟨sh1, sh2, sh3, sh4⟩ := rendered_node_shape m
+  refine ⟨?_, ?_, sh4⟩
+  · intro e he d hd
+    exact compile_dests_resolve noArgs testTypes evs out h _ hn e he d (by
+      cases hde : e.dest <;> simp [hde] at hd; rw [hd])
+  · intro r hr'
+    have hr : (Compile.renderNode m).router = some r := by
+      cases hrr : (Compile.renderNode m).router <;> simp [hrr] at hr'; rw [hr']
+    have hex : r.cats.map (·.exitUuid) = (Compile.renderNode m).exits.map (·.uuid) := sh1 r hr
+    -- exits and categories are sub-lists of the node's identifiers
+    have hE : ((Compile.renderNode m).exits.map (·.uuid)).Nodup := by
+      refine List.Sublist.nodup ?_ hnd
+      unfold Flow.Node.ids
+      exact ((List.sublist_append_right _ _).trans (List.sublist_append_left _ _)).cons _
+    have hC : (r.cats.map (·.uuid)).Nodup := by
+      refine List.Sublist.nodup ?_ hnd
+      unfold Flow.Node.ids
+      rw [hr]
+      exact ((List.sublist_append_left _ _).trans (List.sublist_append_right _ _)).cons _
+    refine ⟨⟨?_, hE, ?_, ?_⟩, hC, ?_, sh2 r hr, sh3 r hr⟩
+    · rw [hex]; exact hE
+    · intro c hc; rw [← hex]; exact List.mem_map_of_mem hc
+    · intro e he; rw [hex]; exact List.mem_map_of_mem he
+    · exact compile_cases_resolve noArgs testTypes evs out h _ hn r hr
+
+/-- non-vacuity of `compile_closed_iff` with identifiers given in the sheet: two rows merging
+into the node `N1` and a router `N2` — plain identifiers, compiles (three nodes, the first with
+two actions), node identifiers are unique, and the output is closed -/
+example : PlainGivenIds mergeEvents ∧ ¬ NoGivenIds mergeEvents ∧
+    ∃ out, Compile.compile [] exTests mergeEvents = .ok out ∧
+      ((Compile.renderOut out).nodes.map (·.uuid)).Nodup ∧ Closed (Compile.renderOut out) := by
+  refine ⟨by decide +kernel, by decide +kernel, ?_⟩
+  obtain ⟨out, ho, hc⟩ := outcome_some (show outcome [] exTests mergeEvents = some true by decide +kernel)
+  exact ⟨out, ho, (hc.mpr rfl).1, hc.mpr rfl⟩
+
+/-- the hypothesis of `compile_closed_iff` is needed: a given `_nodeId` equal to an identifier the
+model invents (`~0`, the uuid of an action) leaves the node identifiers pairwise different, yet
+one identifier names two objects -/
+theorem needs_plain_given_ids :
+    ¬ PlainGivenIds tildeEvents ∧
+    ∃ out, Compile.compile [] exTests tildeEvents = .ok out ∧
+      ((Compile.renderOut out).nodes.map (·.uuid)).Nodup ∧ ¬ Closed (Compile.renderOut out) := by
+  refine ⟨by decide +kernel, ?_⟩
+  have h : (match Compile.compile [] exTests tildeEvents with
+      | .ok out => decide (((Compile.renderOut out).nodes.map (·.uuid)).Nodup ∧ ¬ Closed (Compile.renderOut out))
+      | .error _ => false) = true := by decide +kernel
+  split at h
+  · rename_i out ho
+    exact ⟨out, ho, by simpa using h⟩
+  · cases h
+
+/-- **C01 for the compiler model, for ALL event sequences** (`compile_closed`): when the sheet
+gives no node identifiers, every flow the compiler model emits is referentially closed —
+node identifiers are unique, every exit leads nowhere or to a node of the same flow, categories
+and exits correspond one to one, every case names a category of its own router, default and
+no-response categories exist, a router-less node has exactly one exit, and every identifier of
+the document is used for one object only.  (`compile_closed_iff` plus: without given
+identifiers every node identifier comes from the counter, which never repeats.) -/
+theorem compile_closed (noArgs testTypes : List Str) (evs : List Compile.Event) (out : Compile.Out)
+    (hids : NoGivenIds evs) (h : Compile.compile noArgs testTypes evs = .ok out) :
+    Flow.Closed (Compile.renderOut out) := by
+  rw [compile_closed_iff noArgs testTypes evs out hids.plain h]
+  obtain ⟨s, hr, hl, ho⟩ := Compile.compile_ok h
+  have a := Compile.final_ainv ⟨True, True⟩ ⟨fun _ => hids.plain, fun _ => hids⟩ hr
+  have hU := Compile.uids_nodup_of_invented (a.ids trivial) (a.inv trivial) _
+    (Compile.emit_nodup (Compile.final_binv hr) hl)
+  rw [← ho] at hU
+  simpa [Compile.renderOut, List.map_map, Function.comp_def, Compile.renderNode] using hU
 
 /-- Under the same hypothesis every identifier of the emitted document was invented by the
 model's `generate_new_uuid` (it is `~k` for a value `k` the counter went through): together with
@@ -361,7 +434,8 @@ theorem compile_ids_invented (noArgs testTypes : List Str) (evs : List Compile.E
     (hids : NoGivenIds evs) (h : Compile.compile noArgs testTypes evs = .ok out) :
     ∀ x ∈ (Compile.renderOut out).ids, ∃ k, x = '~' :: Compile.natStr k := by
   obtain ⟨s, hr, hl, ho⟩ := Compile.compile_ok h
-  have hI := (Compile.final_ainv True (fun _ => hids) hr).ids trivial
+  have hI := (Compile.final_ainv ⟨True, True⟩ ⟨fun _ => hids.plain, fun _ => hids⟩ hr).ids trivial
+  have hV := (Compile.final_ainv ⟨True, True⟩ ⟨fun _ => hids.plain, fun _ => hids⟩ hr).inv trivial
   intro x hx
   have e : (Compile.renderOut out).ids = out.nodes.flatMap Compile.NodeM.ids := by
     simp only [Compile.renderOut, Flow.Flow.ids, List.flatMap_map, Compile.renderNode_ids]
@@ -369,7 +443,11 @@ theorem compile_ids_invented (noArgs testTypes : List Str) (evs : List Compile.E
   obtain ⟨m, hm, hxm⟩ := hx
   rw [ho] at hm
   obtain ⟨i, hi⟩ := Compile.out_nodes_arena hm
-  obtain ⟨k, _, hk⟩ := hI.below i m hi x hxm
+  obtain ⟨k, _, hk⟩ := hI.below i m hi x (by
+    rw [Compile.NodeM.ids_eq, List.mem_cons] at hxm
+    rcases hxm with e | e
+    · rw [e]; exact Compile.uid_mem_fids m (hV i m hi)
+    · exact Compile.innerIds_sub_fids m e)
   exact ⟨k, hk⟩
 
 /-! ### non-vacuity of `compile_closed` and the negative witness for its hypothesis -/
@@ -392,11 +470,12 @@ example : NoGivenIds exEvents ∧
 
 /-- the hypothesis of `compile_closed` is needed (finding F-C01-a of the real code, reproduced by
 the model): the same `_nodeId` on an action row and a following router row compiles without
-error into two nodes sharing one uuid — not a closed flow -/
+error into two nodes sharing one uuid — not a closed flow (by `compile_closed_iff` the duplicated
+node identifier is the only thing wrong with it) -/
 theorem needs_no_given_ids :
-    ¬ NoGivenIds badEvents ∧
+    ¬ NoGivenIds badEvents ∧ PlainGivenIds badEvents ∧
     ∃ out, Compile.compile [] exTests badEvents = .ok out ∧ ¬ Closed (Compile.renderOut out) := by
-  refine ⟨by decide +kernel, ?_⟩
+  refine ⟨by decide +kernel, by decide +kernel, ?_⟩
   have h : outcome [] exTests badEvents = some false := by decide +kernel
   obtain ⟨out, ho, hc⟩ := outcome_some h
   exact ⟨out, ho, fun hcl => by have := hc.mp hcl; cases this⟩
